@@ -156,5 +156,249 @@ pub struct ExUtf8Error(std::str::Utf8Error);
 """)
     u.emit(f)
 
+    # ---------------- byte-string literals: contents are not modelled by Verus (only lengths); one axiom per literal,
+    # generated from the same text that is written in the axiom, so the table cannot disagree with itself ----------------
+    LITS = [('b" -> "', b" -> "), ('b":"', b":"), ('b"#"', b"#"), ('b"    "', b"    "), ('b" "', b" "), ('b"("', b"("), ('b")"', b")"),
+            ('br#""}"#', b'"}'), ('br#" {"id":"sourceFile","fileName":""#', b' {"id":"sourceFile","fileName":"')]
+    ax = ["#[verifier::external_body]\npub proof fn axiom_byte_literals()\n    ensures\n"]
+    for txt, val in LITS:
+        ax.append("        %s@ == seq![%s],\n" % (txt, ", ".join("%du8" % b for b in val)))
+    ax.append("        str_bytes(\"sourceFile\") == seq![%s],\n" % ", ".join("%du8" % b for b in b"sourceFile"))
+    ax.append("{}\n")
+    u.raw("".join(ax), "literal_axioms")
+    c = mp.item("const", "SOURCE_FILE_PREFIX")
+    c.insert_after("SOURCE_FILE_PREFIX: &", "'static ")   # elided 'static spelled out (Verus turns consts into items with explicit lifetimes)
+    u.emit(c)
+
+    GRAMMAR = """
+pub open spec fn lit_arrow() -> Seq<u8> { seq![32u8, 45u8, 62u8, 32u8] }   // " -> "
+pub open spec fn lit_colon() -> Seq<u8> { seq![58u8] }                     // ":"
+// C05: class line  `originalclassname -> obfuscatedclassname:`
+pub open spec fn class_line(bytes: Seq<u8>, o: Seq<u8>, b: Seq<u8>, tail: Seq<u8>) -> bool {
+    bytes == o + lit_arrow() + b + lit_colon() + tail
+    && (forall|j: int| 0 <= j < o.len() ==> o[j] != 32u8 && !spec_is_newline(#[trigger] o[j]))
+    && (forall|j: int| 0 <= j < b.len() ==> b[j] != 58u8 && !spec_is_newline(#[trigger] b[j]))
+}
+// what follows the class line's `:` (normally the line terminator and the rest of the file)
+pub open spec fn class_tail(bytes: Seq<u8>, o: Seq<u8>, b: Seq<u8>) -> Seq<u8> { bytes.subrange((o.len() + 4 + b.len() + 1) as int, bytes.len() as int) }
+"""
+    u.raw(GRAMMAR, "grammar")
+
+    # ---------------- parse_proguard_class ----------------
+    f = mp.fn("parse_proguard_class")
+    f.ret("ret")
+    f.props_all = ["C05", "C06"]; f.props_safety = P13
+    f.closure("|c|", occ=1, params="|c: &u8|", ret="r: bool", spec="ensures r == ({specbody})", spec_map=SPEC_MAP)
+    f.closure("|c|", occ=2, params="|c: &u8|", ret="r: bool", spec="ensures r == ({specbody})", spec_map=SPEC_MAP)
+    f.contract("""    ensures
+        /*@L:class_line_grammar:C05*/ match ret {
+            Ok((ProguardRecord::Class { original, obfuscated }, rest)) =>
+                class_line(bytes@, str_bytes(original), str_bytes(obfuscated), class_tail(bytes@, str_bytes(original), str_bytes(obfuscated)))
+                && rest@ == skip_nl(class_tail(bytes@, str_bytes(original), str_bytes(obfuscated))),
+            Ok((_, _)) => false,
+            Err(_) => true,
+        },
+        /*@L:class_names_have_no_line_terminator:C06*/ match ret { Ok((ProguardRecord::Class { original, obfuscated }, _)) => str_no_nl(original) && str_no_nl(obfuscated), _ => true },
+        /*@L:class_record_taken_within_first_line:C06*/ ret is Ok ==> taken_within_first_line(bytes@, ret->Ok_0.1@),""")
+    f.body_start("let ghost b0 = bytes@;\n    proof { axiom_byte_literals(); }\n")
+    f.after_stmt("let (original, bytes) =", "    let ghost b1 = bytes@;\n")
+    f.after_stmt("let bytes = parse_prefix(bytes,", "    let ghost b2 = bytes@;\n", occ=1)
+    f.after_stmt("let (obfuscated, bytes) =", "    let ghost b3 = bytes@;\n")
+    f.after_stmt("let bytes = parse_prefix(bytes,", "    let ghost b4 = bytes@;\n", occ=2)
+    f.insert_before("Ok((record,", """proof {
+        let o = str_bytes(original); let b = str_bytes(obfuscated);
+        assert(b0 =~= o + b1);
+        assert(b1 =~= lit_arrow() + b2);
+        assert(b2 =~= b + b3);
+        assert(b3 =~= lit_colon() + b4);
+        assert(b0 =~= o + lit_arrow() + b + lit_colon() + b4);
+        assert forall|j: int| 0 <= j < o.len() implies o[j] != 32u8 && !spec_is_newline(#[trigger] o[j]) by { assert(o[j] == b0[j]); }
+        assert forall|j: int| 0 <= j < b.len() implies b[j] != 58u8 && !spec_is_newline(#[trigger] b[j]) by { assert(b[j] == b2[j]); }
+        let k = (o.len() + 4 + b.len() + 1) as int;
+        assert(b0.subrange(k, b0.len() as int) =~= b4);
+        assert(class_tail(b0, o, b) == b4);
+        assert(class_line(b0, o, b, b4));
+        assert forall|j: int| 0 <= j < k implies !spec_is_newline(#[trigger] b0.subrange(0, k)[j]) by {
+            if j < o.len() { assert(b0[j] == o[j]); }
+            else if j < o.len() + 4 { assert(b0[j] == lit_arrow()[j - o.len()]); }
+            else if j < o.len() + 4 + b.len() { assert(b0[j] == b[j - o.len() - 4]); }
+            else { assert(b0[j] == 58u8); }
+        }
+        assert(no_nl(b0.subrange(0, k)));
+    }
+    """)
+    u.emit(f)
+
+    # ---------------- parse_proguard_header ----------------
+    HSPEC = """
+// byte classes used by the grammar
+pub open spec fn in_set(kind: int, c: u8) -> bool {
+    if kind == 0 { spec_is_newline(c) }                      // line end
+    else if kind == 1 { spec_is_newline(c) || c == 34u8 }    // line end or `"`
+    else if kind == 2 { c == 58u8 || spec_is_newline(c) }    // `:` or line end
+    else if kind == 3 { spec_is_newline(c) || c == 32u8 }    // line end or space
+    else if kind == 4 { spec_is_newline(c) || c == 32u8 || c == 40u8 }  // line end, space or `(`
+    else if kind == 5 { spec_is_newline(c) || c == 41u8 }    // line end or `)`
+    else { !spec_byte_is_numeric(c) }                        // not a digit
+}
+// index of the first byte of b in the class (b.len() if none): the reference scanner of the grammar specs
+pub open spec fn find_first(b: Seq<u8>, kind: int) -> int
+    decreases b.len()
+{
+    if b.len() == 0 || in_set(kind, b[0]) { 0 } else { 1 + find_first(b.subrange(1, b.len() as int), kind) }
+}
+pub proof fn lemma_find_first(b: Seq<u8>, kind: int, k: int)
+    requires 0 <= k <= b.len(), forall|j: int| 0 <= j < k ==> !in_set(kind, #[trigger] b[j]), k < b.len() ==> in_set(kind, b[k]),
+    ensures find_first(b, kind) == k,
+    decreases b.len()
+{
+    if b.len() == 0 || in_set(kind, b[0]) { } else {
+        let t = b.subrange(1, b.len() as int);
+        assert forall|j: int| 0 <= j < k - 1 implies !in_set(kind, #[trigger] t[j]) by { assert(t[j] == b[j + 1]); }
+        if k < b.len() { assert(t[k - 1] == b[k]); }
+        lemma_find_first(t, kind, k - 1);
+    }
+}
+pub open spec fn has_prefix(b: Seq<u8>, p: Seq<u8>) -> bool { p.len() <= b.len() && b.subrange(0, p.len() as int) == p }
+pub open spec fn lit_sfp() -> Seq<u8> { br#" {"id":"sourceFile","fileName":""#@ }
+pub open spec fn lit_sf_key() -> Seq<u8> { str_bytes("sourceFile") }
+
+// C05: header line, as a reference parser written from the documented grammar:
+//   `#` ` {"id":"sourceFile","fileName":"` VALUE `"}`     -> key "sourceFile", value VALUE (no quote, no line end inside)
+//   `#` KEY [`:` VALUE]   up to the line end                  -> key = trim(KEY), value = trim(VALUE)
+pub struct HeaderSpec { pub key: Seq<u8>, pub value: Option<Seq<u8>>, pub rest: Seq<u8> }
+pub open spec fn header_spec(bytes: Seq<u8>) -> Option<HeaderSpec> {
+    if !(bytes.len() >= 1 && bytes[0] == 35u8) { None } else {
+        let body = bytes.subrange(1, bytes.len() as int);
+        if has_prefix(body, lit_sfp()) {
+            let v0 = body.subrange(32, body.len() as int);
+            let k = find_first(v0, 1);
+            if k < v0.len() && v0[k] == 34u8 && has_prefix(v0.subrange(k, v0.len() as int), seq![34u8, 125u8]) {
+                Some(HeaderSpec { key: lit_sf_key(), value: Some(v0.subrange(0, k)), rest: skip_nl(v0.subrange(k + 2, v0.len() as int)) })
+            } else { None }
+        } else {
+            let k = find_first(body, 2);
+            if k < body.len() && body[k] == 58u8 {
+                let after = body.subrange(k + 1, body.len() as int);
+                let e = find_first(after, 0);
+                Some(HeaderSpec { key: spec_trim(body.subrange(0, k)), value: Some(spec_trim(after.subrange(0, e))), rest: skip_nl(after.subrange(e, after.len() as int)) })
+            } else {
+                Some(HeaderSpec { key: spec_trim(body.subrange(0, k)), value: None, rest: skip_nl(body.subrange(k, body.len() as int)) })
+            }
+        }
+    }
+}
+pub open spec fn opt_bytes(o: Option<&str>) -> Option<Seq<u8>> { match o { Some(s) => Some(str_bytes(s)), None => None } }
+// a no-newline prefix of length k (1 <= k) followed by skip_nl of the remainder: the witness form of taken_within_first_line
+pub proof fn lemma_taken(b: Seq<u8>, k: int, rest: Seq<u8>)
+    requires 1 <= k <= b.len(), no_nl(b.subrange(0, k)), rest == skip_nl(b.subrange(k, b.len() as int)),
+    ensures taken_within_first_line(b, rest),
+{}
+pub proof fn lemma_sfp_no_nl()
+    ensures forall|j: int| 0 <= j < 32 ==> !spec_is_newline(#[trigger] lit_sfp()[j]), lit_sfp().len() == 32,
+{ axiom_byte_literals(); }
+"""
+    u.raw(HSPEC, "header_spec")
+    f = mp.fn("parse_proguard_header")
+    f.ret("ret")
+    f.props_all = ["C05", "C06"]; f.props_safety = P13
+    f.closure("|c|", occ=1, params="|c: &u8|", ret="r: bool", spec="ensures r == ({specbody})", spec_map=SPEC_MAP)
+    f.closure("|c|", occ=2, params="|c: &u8|", ret="r: bool", spec="ensures r == ({specbody})", spec_map=SPEC_MAP)
+    f.replace_all_re(r"parse_until\(bytes, is_newline\)", "parse_until(bytes, |b: &u8| -> (r: bool) ensures r == spec_is_newline(*b) { is_newline(b) })", "R3",
+                     why="fn item `is_newline` passed as predicate: eta-expanded into a closure carrying its contract", min_count=1)
+    f.replace_all_re(r"\.map\(\|\(v, bytes\)\| \(Some\(v\), bytes\)\)", ".map(|vb: (&str, &[u8])| -> (r: (Option<&str>, &[u8])) ensures r == (Some(vb.0), vb.1) { let (v, bytes) = vb; (Some(v), bytes) })", "R3",
+                     why="closure with a tuple pattern parameter: pattern moved into a `let` inside the body, contract added", min_count=1)
+    f.replace_all_re(r"key\.trim\(\)", "shim_trim(key)", "R2", why="str::trim behind a shim (result is a sub-slice)", min_count=1)
+    f.replace_all_re(r"value\.map\(\|v\| v\.trim\(\)\)", "value.map(|v: &str| -> (r: &str) ensures str_bytes(r) == spec_trim(str_bytes(v)), exists|a: int, b: int| 0 <= a <= b <= str_bytes(v).len() && str_bytes(r) == #[trigger] str_bytes(v).subrange(a, b) { shim_trim(v) })", "R2", min_count=1)
+    f.contract("""    ensures
+        /*@L:header_grammar:C05*/ match ret {
+            Ok((ProguardRecord::Header { key, value }, rest)) => header_spec(bytes@) == Some(HeaderSpec { key: str_bytes(key), value: opt_bytes(value), rest: rest@ }),
+            Ok((_, _)) => false,
+            Err(_) => true,
+        },
+        /*@L:header_key_and_value_have_no_line_terminator:C06*/ match ret { Ok((ProguardRecord::Header { key, value }, _)) => str_no_nl(key) && opt_no_nl(value), _ => true },
+        /*@L:header_record_taken_within_first_line:C06*/ ret is Ok ==> taken_within_first_line(bytes@, ret->Ok_0.1@),""")
+    f.body_start("let ghost b0 = bytes@;\n    proof { axiom_byte_literals(); reveal_strlit(\"sourceFile\"); }\n")
+    f.after_stmt("let bytes = parse_prefix(bytes, b\"#\")", "    let ghost body = bytes@;\n    proof { assert(body =~= b0.subrange(1, b0.len() as int)); assert(b0.subrange(0, 1)[0] == 35u8); assert(b0[0] == 35u8); }\n")
+    f.insert_after("if let Ok(bytes) = parse_prefix(bytes, SOURCE_FILE_PREFIX) {", "\n        let ghost v0 = bytes@;")
+    f.after_stmt("let (value, bytes) = parse_until_no_newline(", "        let ghost v1 = bytes@;\n")
+    f.after_stmt("let bytes = parse_prefix(bytes, br#", "        let ghost v2 = bytes@;\n")
+    f.insert_before("Ok((record, consume_leading_newlines(bytes)))", """proof {
+            let v = str_bytes(value);
+            let k = v.len() as int;
+            assert(has_prefix(body, lit_sfp()));
+            assert(v0 =~= body.subrange(32, body.len() as int));
+            assert(v1 =~= v0.subrange(k, v0.len() as int));
+            assert(v1[0] == 34u8 && v1[1] == 125u8);
+            assert(v0[k] == v1[0]);
+            assert forall|j: int| 0 <= j < k implies !in_set(1, #[trigger] v0[j]) by { }
+            lemma_find_first(v0, 1, k);
+            assert(v1.subrange(0, 2) =~= seq![34u8, 125u8]);
+            assert(v0.subrange(0, k) =~= v);
+            assert(v0.subrange(k + 2, v0.len() as int) =~= v2);
+            assert(str_bytes("sourceFile") =~= lit_sf_key());
+            // line-boundary discipline: `#` + 32 literal bytes + value + `"}` contain no line terminator
+            let kk = 1 + 32 + k + 2;
+            assert(b0.subrange(kk, b0.len() as int) =~= v2);
+            assert forall|j: int| 0 <= j < kk implies !spec_is_newline(#[trigger] b0.subrange(0, kk)[j]) by {
+                if j == 0 { } else if j < 33 { assert(b0[j] == lit_sfp()[j - 1]); lemma_sfp_no_nl(); }
+                else if j < 33 + k { assert(b0[j] == v0[j - 33]); }
+                else { assert(b0[j] == v1[j - 33 - k]); }
+            }
+            lemma_taken(b0, kk, skip_nl(v2));
+            assert forall|j: int| 0 <= j < v.len() implies !spec_is_newline(#[trigger] v[j]) by { assert(v[j] == v0[j]); }
+            assert(no_nl(lit_sf_key()));
+        }
+        """, occ=1)
+    f.after_stmt("let (key, bytes) = parse_until(", "        let ghost k1 = bytes@;\n")
+    f.after_stmt("let (value, bytes) = match parse_prefix(", "        let ghost k2 = bytes@;\n")
+    f.insert_before("Ok((record, consume_leading_newlines(bytes)))", """proof {
+            let kb = str_bytes(key);
+            let k = kb.len() as int;
+            assert(!has_prefix(body, lit_sfp()));
+            assert(k1 =~= body.subrange(k, body.len() as int));
+            assert forall|j: int| 0 <= j < k implies !in_set(2, #[trigger] body[j]) by { }
+            if k < body.len() { assert(k1[0] == body[k]); }
+            lemma_find_first(body, 2, k);
+            assert(body.subrange(0, k) =~= kb);
+            assert(no_nl(kb)) by { assert forall|j: int| 0 <= j < kb.len() implies !spec_is_newline(#[trigger] kb[j]) by { assert(kb[j] == body[j]); } }
+            let (tk, tv) = match record { ProguardRecord::Header { key, value } => (key, value), _ => (key, value) };
+            // trimmed strings are sub-slices
+            let (ka, kz) = choose|a: int, b: int| 0 <= a <= b <= kb.len() && str_bytes(tk) == #[trigger] kb.subrange(a, b);
+            lemma_sub_no_nl(kb, ka, kz);
+            if k < body.len() && body[k] == 58u8 {
+                let after = body.subrange(k + 1, body.len() as int);
+                assert(k1.subrange(0, 1) =~= seq![58u8]);
+                let vb = str_bytes(value->0);
+                let e = vb.len() as int;
+                assert(after =~= k1.subrange(1, k1.len() as int));
+                assert(k2 =~= after.subrange(e, after.len() as int));
+                assert forall|j: int| 0 <= j < e implies !in_set(0, #[trigger] after[j]) by { }
+                if e < after.len() { assert(k2[0] == after[e]); }
+                lemma_find_first(after, 0, e);
+                assert(after.subrange(0, e) =~= vb);
+                assert(no_nl(vb)) by { assert forall|j: int| 0 <= j < vb.len() implies !spec_is_newline(#[trigger] vb[j]) by { assert(vb[j] == after[j]); } }
+                let (va, vz) = choose|a: int, b: int| 0 <= a <= b <= vb.len() && str_bytes(tv->0) == #[trigger] vb.subrange(a, b);
+                lemma_sub_no_nl(vb, va, vz);
+                let kk = 1 + k + 1 + e;
+                assert(b0.subrange(kk, b0.len() as int) =~= k2);
+                assert forall|j: int| 0 <= j < kk implies !spec_is_newline(#[trigger] b0.subrange(0, kk)[j]) by {
+                    if j == 0 { } else if j < 1 + k { assert(b0[j] == body[j - 1]); } else if j == 1 + k { assert(b0[j] == body[k]); } else { assert(b0[j] == after[j - 2 - k]); }
+                }
+                lemma_taken(b0, kk, skip_nl(k2));
+            } else {
+                if k < body.len() { assert(k1.subrange(0, 1)[0] == body[k]); }
+                assert(value is None && k2 == k1);
+                let kk = 1 + k;
+                assert(b0.subrange(kk, b0.len() as int) =~= k1);
+                assert forall|j: int| 0 <= j < kk implies !spec_is_newline(#[trigger] b0.subrange(0, kk)[j]) by {
+                    if j == 0 { } else { assert(b0[j] == body[j - 1]); }
+                }
+                lemma_taken(b0, kk, skip_nl(k1));
+            }
+        }
+        """, occ=2)
+    u.emit(f)
+
     u.raw(FOOTER, "footer")
     return u
